@@ -2115,11 +2115,18 @@ func extractGoLean() {
 	ptrBuf := map[string]bool{"buf": true}
 	frame := []string{"f, _ := runtime.CallersFrames"}
 	// TrJson (C01): the string escaper, the source attribute, the level label | TrLogger (supporting code)
+	// TrLevel: the level label (level.go), shared by the JSON (C01) and Text (C13) handlers
 	glTranslate(glUnit{
-		Module: "TrJson", NS: "Glb.Tr.Logger",
-		Imports: []string{"Glb.Go.LibUtf8", "Glb.Generated.Logger"},
+		Module: "TrLevel", NS: "Glb.Tr.Logger",
+		Imports: []string{"Glb.Generated.Logger"},
 		Funcs: []glFunc{
 			{File: "logger/level.go", Name: "appendFullLevel", Args: "(buf : Bytes) (l : Int) (colorful : Bool)", Ret: "Bytes", Ptr: ptrBuf, Env: tables},
+		},
+	})
+	glTranslate(glUnit{
+		Module: "TrJson", NS: "Glb.Tr.Logger",
+		Imports: []string{"Glb.Go.LibUtf8", "Glb.Generated.Logger", "Glb.Generated.TrLevel"},
+		Funcs: []glFunc{
 			{File: "logger/json_handler.go", Name: "appendJsonString", Args: "(buf : Bytes) (str : Bytes)", Ret: "Bytes", Ptr: ptrBuf, Env: tables,
 				Fuel: map[int]string{0: "(Glb.Go.len str + 1).toNat"}},
 			{File: "logger/json_handler.go", Name: "appendJsonSource", Args: "(buf : Bytes) (file : Bytes) (line : Int)", Ret: "Bytes", Ptr: ptrBuf, Env: tables, Skip: frame},
@@ -2332,6 +2339,15 @@ func extractGoLean() {
 				Libs: textLibs, Fuel: map[int]string{0: "(Glb.Go.len str + 1).toNat"}},
 		},
 	})
+	// TrTextSource (C13): the source attribute of the text handler
+	glTranslate(glUnit{
+		Module: "TrTextSource", NS: "Glb.Tr.Logger",
+		Imports: []string{"Glb.Generated.TrText"},
+		Funcs: []glFunc{
+			{File: "logger/text_handler.go", Name: "appendTextSource", Extra: "P",
+				Args: "(P : Glb.TextHandler.Std) (buf : Bytes) (file : Bytes) (line : Int)", Ret: "Bytes", Ptr: ptrBuf, Env: tables, Skip: frame},
+		},
+	})
 	// TrTextAttr (C13): the dotted-prefix bookkeeping of appendTextAttr (recursive: fuel; two threaded buffers)
 	glTranslate(glUnit{
 		Module: "TrTextAttr", NS: "Glb.Tr.Logger",
@@ -2345,6 +2361,37 @@ func extractGoLean() {
 				Tuples: map[string][]string{"a.Value.Kind()": {"(Glb.Go.LibTextAttr.isGroup a)"}, "a.Value.Group()": {"(Glb.Go.LibTextAttr.groupOf a)"}},
 				Skip:    []string{"a.Value = a.Value.Resolve()"},
 				Rewrite: map[string]string{"appendTextValue(buf, a.Value, colorful)": "buf := Glb.Go.LibTextAttr.valueAppend P buf a"}},
+		},
+	})
+	// TrTextHandler (C13): the three Handler methods at the level of values (state: preformatted, groupPrefix)
+	th := map[string]string{
+		"h2.preformatted": "pre", "h2.groupPrefix": "gp", "h2": "()", "h": "()", "h.preformatted": "pre", "h.groupPrefix": "gp",
+		"h.Options.colorful": "false", "h.Options.addSource": "addSource", "attrs": "attrs", "err": "()",
+		"slog.TimeKey": "Glb.TextHandler.timeKey", "slog.LevelKey": "Glb.TextHandler.levelKey", "slog.SourceKey": "Glb.TextHandler.sourceKey", "slog.MessageKey": "Glb.TextHandler.msgKey",
+		"r.Level": "level", "r.Message": "msg",
+	}
+	thPtr := map[string]bool{"h2.preformatted": true, "h2.groupPrefix": true, "prefix": true, "range-elems": true}
+	glTranslate(glUnit{
+		Module: "TrTextHandler", NS: "Glb.Tr.Logger",
+		Imports: []string{"Glb.Go.LibTextAttr", "Glb.Generated.TrLevel", "Glb.Generated.TrText", "Glb.Generated.TrTextSource", "Glb.Generated.TrTextAttr"},
+		Funcs: []glFunc{
+			{File: "logger/text_handler.go", Recv: "TextHandler", Name: "WithGroup", Lean: "Text_WithGroup", Args: "(pre gp : Bytes) (name : Bytes)", Ret: "(Bytes × Bytes × Unit)",
+				Env: th, Ptr: thPtr, Thread: []string{"pre", "gp"}, Skip: []string{"h2 := h.clone()"}},
+			{File: "logger/text_handler.go", Recv: "TextHandler", Name: "WithAttrs", Lean: "Text_WithAttrs", Args: "(fuel__ : Nat) (P : Glb.TextHandler.Std) (pre gp : Bytes) (attrs : List Glb.TextHandler.Attr)", Ret: "(Bytes × Bytes × Unit)",
+				Env: th, Ptr: thPtr, Thread: []string{"pre", "gp"}, Skip: []string{"h2 := h.clone()", "h2.freePrefix(prefix)"},
+				Tuples: map[string][]string{"h2.prefix()": {"gp"}}},
+			{File: "logger/text_handler.go", Recv: "TextHandler", Name: "Handle", Lean: "Text_Handle",
+				Args: "(fuel__ : Nat) (P : Glb.TextHandler.Std) (buf : Bytes) (addSource : Bool) (pre gp : Bytes) (time : Bytes) (level : Int) (file : Bytes) (line : Int) (msg : Bytes) (attrs : List Glb.TextHandler.Attr)",
+				Ret: "(Bytes × Unit)", Env: th, Ptr: map[string]bool{"buf": true, "prefix": true, "range-elems": true}, Thread: []string{"buf"},
+				Iter:   map[string]string{"r.Attrs": "attrs"},
+				Tuples: map[string][]string{"r.NumAttrs()": {"(Glb.Go.len attrs)"}, "h.prefix()": {"gp"}},
+				Skip:   []string{"defer freeBuffer(buf)", "h.outMu.Lock()", "defer h.outMu.Unlock()", "h.freePrefix(prefix)"},
+				Rewrite: map[string]string{
+					"buf := newBuffer()": "pure ()",
+					"*buf = r.Time.AppendFormat(*buf, time.RFC3339)": "buf := buf ++ time",
+					"appendTextSource(buf, r.PC)":                     "buf ← Glb.Tr.Logger.appendTextSource P buf file line",
+					"_, err := h.out.Write(*buf)":                     "pure ()",
+				}},
 		},
 	})
 
